@@ -610,7 +610,128 @@ def _fine_case(rng, kind):
     return c
 
 
+
+# ------------------------------------------------------------------------------- fit on other data, then transform
+TRAIN_MODES = ["fit", "fit", "fit", "fit_transform", "fit_transform", "fit_then_transform_train", "clone"]
+
+
+def _pow2(k):
+    return k >= 1 and k & (k - 1) == 0
+
+
+def _train_for(rng, c):
+    """Training diagrams A for the case's diagrams B: a PersistenceLandscaper configured like the case is fitted on A
+    (grid ends the user did not fix are LEARNED from A) and then transforms B.  A covers B (its extreme birth / death
+    lie at or beyond those of B, strictly beyond in 5 of 6 cases), so the fitted grid covers B and differs from B's own
+    default grid.  A is built so that B stays in its family on the fitted grid: exact family = A on the dyadic lattice of
+    B's own coordinates (n-1 a power of two: the fitted step is a dyadic number again); tolerance family = random
+    doubles (integers for integer diagrams), kept only if every end point of B is away from the half-way points of the
+    fitted grid.  Returns None when no such A is found / the case is outside the quantifier."""
+    if c.get("big") or not (0 <= c["hom_deg"] < len(c["dgms"])) or c["n"] < 2:
+        return None
+    dg = c["dgms"][c["hom_deg"]]
+    fin = [(Fraction(_f(b)), Fraction(_f(d))) for b, d in dg if d != "inf" and b != "inf"]
+    if not fin:
+        return None
+    lo, hi = min(b for b, _ in fin), max(d for _, d in fin)
+    S = None if c["start"] is None else Fraction(c["start"])
+    E = None if c["stop"] is None else Fraction(c["stop"])
+    if (S is not None and S > lo) or (E is not None and E < hi):
+        return None
+    n = c["n"]
+    exact = c["family"] == "exact"
+    integral = all(x.denominator == 1 for bd in fin for x in bd) and c.get("dtype") in ("int64", "int32")
+    if exact:
+        if not _pow2(n - 1):
+            return None
+        u = Fraction(1, max(x.denominator for bd in fin for x in bd))
+        nz = [abs(x.numerator) * (u.denominator // x.denominator) for bd in fin for x in bd if x != 0]
+        while nz and all(k % 2 == 0 for k in nz):      # the coarsest dyadic lattice that holds every coordinate of B
+            nz = [k // 2 for k in nz]
+            u *= 2
+        if not (_pow2(u.denominator) and _pow2(u.numerator)):
+            return None
+    margin = Fraction(1, 10 ** 3) if c.get("cls") == "mag_offset" else Fraction(1, 10 ** 6)
+    for _ in range(80):
+        w = hi - lo
+        if exact:
+            q = min(1024, max(4, int(w / u)))
+            el, eh = [rng.choice([0, 1, 2, 3, rng.randint(1, q), rng.randint(1, 2 * q)]) * u for _ in range(2)]
+        elif integral:
+            el, eh = [Fraction(rng.choice([0, 1, 1, 2, 3, rng.randint(1, 10)])) for _ in range(2)]
+        else:
+            w = w if w > 0 else max(abs(hi), abs(lo), Fraction(1)) / 1000
+            el, eh = [Fraction(rng.choice([0.0, rng.uniform(0.01, 0.3), rng.uniform(0.1, 1.0), rng.uniform(0.5, 3.0)])) * w
+                      for _ in range(2)]
+        if rng.random() < 5 / 6 and el == 0 and eh == 0:
+            continue
+        a_lo = Fraction(float(lo - el)) if S is None else None      # learned ends are doubles
+        a_hi = Fraction(float(hi + eh)) if E is None else None
+        if (a_lo is not None and a_lo > lo) or (a_hi is not None and a_hi < hi):
+            continue
+        gs, ge = (S if S is not None else a_lo), (E if E is not None else a_hi)
+        if not gs < ge:
+            continue
+        st = (ge - gs) / (n - 1)
+        if not exact:
+            def away(x):
+                t = (x - gs) / st
+                return abs(t - (t.numerator // t.denominator) - Fraction(1, 2)) > margin
+            if not all(away(x) for bd in fin for x in bd):
+                continue
+        # the bars of A: the extreme birth and the extreme death, a few more in between
+        def inside():
+            if exact:
+                return gs + rng.randint(0, max(1, int((ge - gs) / u))) * u if (ge - gs) / u < 10 ** 6 else rng.choice([gs, ge, lo, hi])
+            if integral:
+                a, b = -(-gs.numerator // gs.denominator), ge.numerator // ge.denominator
+                return Fraction(rng.randint(a, b)) if a <= b else gs
+            return Fraction(rng.uniform(float(gs), float(ge)))
+        pts = []
+        for _k in range(rng.randint(0, 3)):
+            x, y = sorted([min(ge, max(gs, inside())), min(ge, max(gs, inside()))])
+            pts.append([x, y])
+        first = [gs, max(gs, min(ge, inside()))]
+        last = [min(ge, max(gs, inside())), ge]
+        if rng.random() < 0.3:
+            first, last = [gs, ge], None                             # one bar spans the whole fitted grid
+        bars = [first] + pts + ([last] if last else [])
+        if rng.random() < 0.5:
+            rng.shuffle(bars)
+        A = [[float(x), float(y)] for x, y in bars]
+        if any(Fraction(v) != x for bd, fb in zip(A, bars) for v, x in zip(bd, fb)):
+            continue
+        if integral and any(v != round(v) for bd in A for v in bd):
+            continue
+        train = []
+        for j in range(len(c["dgms"])):
+            if j == c["hom_deg"]:
+                train.append(A)
+            else:    # another degree, on another range: the grid is learned from the configured degree only
+                k = rng.choice([0.5, 2.0, 3.0])
+                train.append([[float(x) * k - 1.0, float(y) * k + 1.0] for x, y in A[:2]])
+        return {"dgms": train, "mode": rng.choice(TRAIN_MODES), "flatten": rng.random() < 0.4}
+    return None
+
+
+def _add_training(rng, cases, share=1.0):
+    """decorates ordinary cases and the steps of the call histories (after everything else has been drawn, so that the
+    cases themselves are the ones that were generated before this class existed)"""
+    for c in cases:
+        for s in (c["seq"] if history.is_hist(c) else [c]):
+            if s.get("fault") or "dgms" not in s or rng.random() >= share:
+                continue
+            t = _train_for(rng, s)
+            if t is not None:
+                s["train"] = t
+    return cases
+
+
 def generate(rng, tier):
+    return _add_training(rng, _generate(rng, tier))
+
+
+def _generate(rng, tier):
     n_exact, n_tol = (420, 180) if tier == "quick" else (7000, 3000)
     classes = ["on_grid", "half_tie", "off_grid", "mixed", "mixed", "narrow", "defaults", "inf", "scale", "dup"]
     cases = []
@@ -699,7 +820,8 @@ def corpus():
                 cs.append(c)
     for c in cs:
         c["vec"] = _vec_ok(c)
-    return cs
+    import random
+    return _add_training(random.Random(8), cs)     # fixed training data for the fixed cases
 
 
 # ------------------------------------------------------------------------------- implementation
@@ -897,6 +1019,43 @@ def impl_call(c, memo=None):
                 history.scribble(r)
                 return e
             o["refit"] = core.guarded(refit)
+        if c.get("train"):
+            def fit_other():
+                # fit on OTHER data A (ends the user did not fix are learned from A), then transform the case's diagrams
+                # B: the result must be the sampled landscape of B on the FITTED grid (reported by the estimator)
+                tr = c["train"]
+                tc = dict(c)
+                tc["dgms"] = tr["dgms"]
+                A = _arrs(tc, memo)
+                flat = bool(tr.get("flatten"))
+                t = landscaper(flat)
+                mode = tr.get("mode", "fit")
+                if mode == "fit_transform":
+                    history.scribble(t.fit_transform(A))
+                else:
+                    t.fit(A)
+                    if mode == "fit_then_transform_train":
+                        history.scribble(t.transform(A))
+                    elif mode == "clone":
+                        from sklearn.base import clone
+                        t = clone(t).fit(A)
+
+                def num(x):
+                    try:
+                        return None if x is None else float(x)
+                    except Exception:  # noqa
+                        return None
+                grid = [num(getattr(t, "start", None)), num(getattr(t, "stop", None)), getattr(t, "num_steps", None)]
+                B = arrs()
+                r = t.transform(B)
+                e = _enc_values(r)
+                e["grid"] = grid if isinstance(grid[2], int) else grid[:2] + [None]
+                history.scribble(r)
+                # the approximate landscape of B on the grid the fitted estimator reports
+                e["ref"] = core.guarded(lambda: _enc_values(PersLandscapeApprox(
+                    dgms=B, start=t.start, stop=t.stop, num_steps=t.num_steps, hom_deg=c["hom_deg"]).values))
+                return e
+            o["fo"] = core.guarded(fit_other)
         if c.get("vec"):
             def vec():
                 e = PersLandscapeExact(dgms=arrs(), hom_deg=c["hom_deg"])
@@ -998,19 +1157,9 @@ def predicate(c, o):
         return False, "shape(approx): %s for %d nodes" % (a["shape"], n)
     if len(a["shape"]) not in (1, 2) or (len(a["shape"]) == 1 and a["shape"][0] != 0):
         return False, "shape(approx): %s" % (a["shape"],)
-    nodes = [start + i * step for i in range(n)]
-    on_grid = all(((x - start) / step).denominator == 1 for bd in bars for x in bd)
-    bound = slack if on_grid else step / 2 + slack
-    for k in range(max(len(rows), len(bars)) + 1):
-        for i, g in enumerate(nodes):
-            v = Fraction(rows[k][i]) if k < len(rows) else Fraction(0)
-            if rows and k < len(rows) and rows[k][i] != rows[k][i]:
-                return False, "nan(approx): depth %d node %d" % (k, i)
-            true = _kth_largest([_tent(b, d, g) for b, d in bars], k + 1)
-            if abs(v - true) > bound:
-                return False, ("half-step: depth %d node %d (t=%s): value %s, k-th largest tent %s, |diff| %s > %s%s"
-                               % (k, i, float(g), float(v), float(true), float(abs(v - true)), float(bound),
-                                  " (all end points on the grid: must be exact)" if on_grid else ""))
+    bad = _half_step(rows, bars, start, step, n, slack, "approx")
+    if bad:
+        return False, bad
     # the transformer returns the approximate class's values
     for key, flat in (("land", False), ("flat", True), ("refit", False)):
         t = o.get(key, {})
@@ -1024,6 +1173,10 @@ def predicate(c, o):
         if got != want:
             return False, ("landscaper(%s): transformer output differs from PersLandscapeApprox.values on the configured "
                            "grid (user-fixed ends: %s)" % (key, c.get("fix", "both")))
+    if c.get("train") and "fo" in o:
+        bad = _predicate_fit_other(c, o["fo"], bars)
+        if bad:
+            return False, bad
     # vectorize reproduces the exact landscape (its own breakpoints) at the grid nodes
     if "vec" in o:
         v = o["vec"]
@@ -1047,6 +1200,70 @@ def predicate(c, o):
                     return False, ("vectorize: depth %d node %d (t=%s): sampled %s, exact landscape %s"
                                    % (k, i, float(g), v["rows"][k][i], float(true)))
     return True, ""
+
+
+def _half_step(rows, bars, start, step, n, slack, what):
+    """the half-step bound (exactness when every end point is a node) of a depth x node table on the grid
+    start + i * step, all depths (those beyond the table count as zero); None or the description of the failure"""
+    nodes = [start + i * step for i in range(n)]
+    on_grid = all(((x - start) / step).denominator == 1 for bd in bars for x in bd)
+    bound = slack if on_grid else step / 2 + slack
+    pre = "" if what == "approx" else "-" + what
+    for k in range(max(len(rows), len(bars)) + 1):
+        for i, g in enumerate(nodes):
+            v = Fraction(rows[k][i]) if k < len(rows) else Fraction(0)
+            if rows and k < len(rows) and rows[k][i] != rows[k][i]:
+                return "nan(%s): depth %d node %d" % (what, k, i)
+            true = _kth_largest([_tent(b, d, g) for b, d in bars], k + 1)
+            if abs(v - true) > bound:
+                return ("half-step%s: depth %d node %d (t=%s): value %s, k-th largest tent %s, |diff| %s > %s%s"
+                        % (pre, k, i, float(g), float(v), float(true), float(abs(v - true)), float(bound),
+                           " (all end points on the grid: must be exact)" if on_grid else ""))
+    return None
+
+
+def _predicate_fit_other(c, fo, bars):
+    """fit(A) with learned grid ends, then transform(B), B = the case's diagrams: the output must be the sampled
+    approximate landscape of B on the FITTED grid - the ends the user fixed, the others as the estimator reports them
+    after fit (if it reports none: the extreme birth / death of A, the default grid of A) -, judged like any other grid
+    landscape (half a step, exact when every end point of B is a node), and must equal PersLandscapeApprox.values of B
+    on that grid (flattened on request)."""
+    tr = c["train"]
+    fixed = {(True, True): "both", (True, False): "start", (False, True): "stop", (False, False): "none"}[
+        (c["start"] is not None, c["stop"] is not None)]
+    how = "fit on other data (%s), then transform; user-fixed ends: %s" % (tr.get("mode", "fit"), fixed)
+    if "error" in fo:
+        return "unexpected-error(fit-other): %s [%s]" % (fo, how)
+    grid = fo.get("grid") or [None, None, None]
+    A = [(Fraction(_f(b)), Fraction(_f(d))) for b, d in tr["dgms"][c["hom_deg"]] if d != "inf"]
+    gs = Fraction(c["start"]) if c["start"] is not None else Fraction(grid[0]) if grid[0] is not None and grid[0] == grid[0] \
+        else min(b for b, _ in A)
+    ge = Fraction(c["stop"]) if c["stop"] is not None else Fraction(grid[1]) if grid[1] is not None and grid[1] == grid[1] \
+        else max(d for _, d in A)
+    n = c["n"]
+    if not gs < ge or any(not (gs <= b <= d <= ge) for b, d in bars):
+        return None          # the fitted grid does not cover B: outside the quantifier
+    bad = _numeric(fo, "fit-other")
+    if bad:
+        return bad + " [%s]" % how
+    rows, shape = fo["rows"], fo["shape"]
+    flat = bool(tr.get("flatten"))
+    if flat:
+        if len(shape) != 1 or shape[0] % n:
+            return "shape(fit-other): flattened output of shape %s for %d nodes [%s]" % (shape, n, how)
+        rows = [rows[i:i + n] for i in range(0, len(rows), n)]
+    elif len(shape) != 2 or shape[1] != n:
+        return "shape(fit-other): %s for %d nodes [%s]" % (shape, n, how)
+    step = (ge - gs) / (n - 1)
+    bad = _half_step(rows, bars, gs, step, n, _slack(c, gs, ge), "fit-other")
+    if bad:
+        return bad + " [%s; fitted grid %s..%s, %d nodes]" % (how, float(gs), float(ge), n)
+    ref = fo.get("ref", {})
+    if "rows" in ref and len(ref["shape"]) == 2:
+        if rows != ref["rows"]:
+            return ("landscaper(fit-other): transformer output differs from PersLandscapeApprox.values on the fitted grid "
+                    "%s..%s, %d nodes [%s]" % (float(gs), float(ge), n, how))
+    return None
 
 
 def _predicate_big(c, o, bars, start, stop, step, slack):
@@ -1297,4 +1514,4 @@ def search_generate(rng, n):
           for _ in range(n // 2)] + [_tol_case(rng) if i % 3 else _mag_case(rng, rng.choice(MAG_KINDS)) for i in range(n - n // 2)]
     for c in cs:
         c["vec"] = _vec_ok(c)
-    return cs
+    return _add_training(rng, cs)
